@@ -15,6 +15,7 @@ func init() {
 			"While the copy runs, the snapshot's pages can only be overwritten if they enter the allocator's free set: the free-set entry chain of C06.R3 is re-evaluated here (R5). " +
 			"NOT decided: that the result opens and passes Check; the copy loop reading the file concurrently with commits (dynamic). Round 3: a backup never closes the database's own file handle.",
 		Run: func(c *Ctx) {
+			ruleBackupMetaBufferOnePage(c, "C14.R9")
 			ruleDataFileClosedOnlyByClose(c, "C14.R8") // "other transactions keep committing during the copy": a backup never closes the database's own handle
 			c14R1(c, "C14.R1")
 			c14R2(c, "C14.R2")
